@@ -231,6 +231,26 @@ package server
 //@   ensures had && seq0 > lspEntry.SequenceNumber ==> !spec_ssn(e0, from)
 //@   ensures had && seq0 < lspEntry.SequenceNumber ==> spec_ssn(e0, from) && !spec_srm(e0, from)
 
+// One aging tick (property C32: a copy is kept "until it ages out"): aging never
+// adds an LSP, never swaps a stored entry and never rejuvenates one - the
+// remaining lifetime of every LSP still stored is at most what it was, and
+// where it changed it is still at least 1 (a lifetime that would reach 0 or
+// wrap below it means the entry is removed instead). Stated for an arbitrary
+// LSP ID g (logical variable) as an invariant of the loop over the database;
+// the map range model visits present keys in any order and possibly more than
+// once, which this invariant tolerates.
+//@ contract (*lsdb).decrementRemainingLifetimes
+//@   props C32
+//@   nosafety
+//@   requires l != nil && l.lsps != nil && l.srv != nil
+//@   logical g packet.LSPID
+//@   old hadg bool = spec_hasLSP(l, g)
+//@   old okg bool = l.lsps[g] != nil && l.lsps[g].lspdu != nil
+//@   old eg *lsdbEntry = l.lsps[g]
+//@   old lifeg uint16 = ite(spec_hasLSP(l, g), l.lsps[g].lspdu.RemainingLifetime, 0)
+//@   loop 0 invariant okg && spec_hasLSP(l, g) ==> hadg && l.lsps[g] == eg && eg.lspdu != nil && eg.lspdu.RemainingLifetime <= lifeg && (eg.lspdu.RemainingLifetime == lifeg || eg.lspdu.RemainingLifetime >= 1)
+//@   ensures okg && spec_hasLSP(l, g) ==> hadg && l.lsps[g] == eg && eg.lspdu.RemainingLifetime <= lifeg && (eg.lspdu.RemainingLifetime == lifeg || eg.lspdu.RemainingLifetime >= 1)
+
 // The local LSP's sequence number grows by one per generation and is never 0.
 //@ contract (*Server).nextL2SequencenNumber
 //@   props C32
